@@ -30,3 +30,10 @@ Proof. vm_compute. split; reflexivity. Qed.
 Example c16_slot_before_system_refuted :
   let st := run_slot [0; 0; 1; 0; 0] (init [100; 200]) in all_done st = true /\ lost st = [200].
 Proof. vm_compute. split; reflexivity. Qed.
+
+(* a "new source" flag decided under the pipe's lock and acted on later under the producer's (seed C16-7): worker 0
+   creates the exporter's entry, worker 1 announces into it and RETURNS, worker 0 reaches the producer and installs a
+   fresh system: worker 1's announcement is gone although its call had returned *)
+Example c16_stale_flag_refuted :
+  let st := run_flag [0; 0; 1; 1; 0] (init [100; 200]) in all_done st = true /\ lost st = [200].
+Proof. vm_compute. split; reflexivity. Qed.
